@@ -104,7 +104,23 @@ def cls_program_label_imm(case):
                if _head(l) not in DATA_HEADS)
 
 
+def cls_odd_layout(case):
+    """KF-E: the program aligns to an odd boundary (align N, N odd and > 1), so whether code addresses are even depends
+    on the sizes in front of it and a branch distance can be even without -c and odd with it"""
+    for l in _program_lines(case):
+        t = l.split('#')[0].split()
+        if len(t) == 2 and t[0].lower() == 'align':
+            try:
+                n = int(t[1], 0)
+            except ValueError:
+                continue
+            if n > 1 and n % 2 == 1:
+                return True
+    return False
+
+
 CLASSES = {
+    'odd-layout': cls_odd_layout,
     'program-label-imm': cls_program_label_imm,
     'li-offset': cls_li_offset,
     'li-label-arith': cls_li_label_arith,
